@@ -282,7 +282,7 @@ pub fn c02(n: usize, start: usize, len: usize) -> Vec<Case> {
 
 pub fn c03(n: usize, start: usize, len: usize, deep: bool) -> Vec<Case> {
     let mut out = c01(n, start, len);
-    let lim = if deep { 6 } else { 4 };
+    let lim = if deep { 7 } else { 6 };
     if n <= lim {
         for s in all_scripts(len + 1) {
             out.push(base(n, start, len, vec![Op::IntoIter(s)]));
